@@ -350,7 +350,7 @@ PROPS["C17"] = dict(
               "Kust.C17.struct_fields_covered", "Kust.C17.field_names_match_keys",
               "Kust.C17.norm_idem", "Kust.C17.frame", "Kust.C17.frame_ops_field", "Kust.C17.namespace_untouched",
               "Kust.C17.patches_untouched", "Kust.C17.commonLabels_untouched", "Kust.C17.set_namespace_idem", "Kust.C17.mapSet_idem",
-              "Kust.C17.mapDel_mapSet", "Kust.C17.add_remove_resource"],
+              "Kust.C17.mapDel_mapSet", "Kust.C17.add_remove_resource", "Kust.C17.mapHas_mapSet", "Kust.C17.add_remove_map"],
     components=["edit.seq", "edit.rewrite"],
     oracle=True,
     n_corr={"quick": 2500, "thorough": 30000}, n_oracle={"quick": 800, "thorough": 10000},
@@ -370,14 +370,17 @@ PROPS["C18"] = dict(
     theorems=["Kust.C18.prefix_comparable", "Kust.C18.applyMut_outside", "Kust.C18.doMut_inv", "Kust.C18.copyFile_inv",
               "Kust.C18.localizeRootWith_keeps", "Kust.C18.localizeOne_keeps", "Kust.C18.localizeRefs_keeps", "Kust.C18.localize_keeps",
               "Kust.C18.run_inv", "Kust.C18.writes_confined", "Kust.C18.source_unchanged", "Kust.C18.cleanup_restores",
-              "Kust.C18.all_or_nothing", "Kust.C18.exPre"],
+              "Kust.C18.all_or_nothing", "Kust.C18.exPre",
+              "Kust.C18.doMut_faith", "Kust.C18.loadFileAt_spec", "Kust.C18.localize_keepsB", "Kust.C18.destination_faithful"],
     components=["loc.run"],
     oracle=True,
     n_corr={"quick": 1500, "thorough": 20000}, n_oracle={"quick": 8, "thorough": 120},
     technique="Lean 4 proof (localize as a program over a file system with one failing operation: invariant 'nothing outside the destination changes, every mutating call is at or below it' through the recursion over roots; a failed run restores the file system) + Go/Lean correspondence on the in-memory FS (success flag, full mutating-call trace, final tree, with the k-th mutating call failing) + exhaustive fault sweep on real directories in a child process (every file-system call of every scenario made to fail once) with build equivalence of the copy",
     level_text="PARTIAL. Theorems, for every source tree, reference list, scope/destination, failing operation index and failing read set: all Mkdir/MkdirAll/"
                "WriteFile/RemoveAll calls address the destination or below; nothing outside it ever changes; if the run fails and the final RemoveAll is not itself the "
-               "failing call, the file system is exactly the initial one (false before fixes C18-F1..F3). Build equivalence of the copy is NOT proved (the "
+               "failing call, the file system is exactly the initial one (false before fixes C18-F1..F3); every file in the destination is a localized kustomization or a "
+               "byte-identical copy of the source file at the mirrored path (destination_faithful). That every reference IS copied and the "
+               "kustomization rewriting (hence build equivalence) is NOT proved (the "
                "kustomization rewriting and YAML are third-party): the sweep builds source and copy for every successful scenario. Symbolic links, remote targets "
                "and helm fields are outside the model.",
     level_note=COMMON_NOTE + "A failing operation has no effect in the model; kustomization parsing is an input (the harness parses, the entries Go walks in map order are restricted to one per kustomization in the trace correspondence).",
